@@ -619,6 +619,11 @@ def context_for(key, rng, plain=False):
         maxfun = int(rng.integers(50, 80))
     elif pre == 'growing':
         ctx['up']['growing.ndirs_initial'] = int(rng.integers(1, n))
+        if key == 'growing.delta_scale_new_dirns' and prob['kind'] != 'lin' and rng.random() < 0.7:
+            prob = gen_problem(rng, nmin, nmax, ('lin',)); n = prob['n']
+            ctx['up']['growing.ndirs_initial'] = int(rng.integers(1, n))
+        if prob['kind'] == 'lin' and rng.random() < (0.8 if key == 'growing.delta_scale_new_dirns' else 0.5):
+            prob['m'] = n - 1         # under-determined: solve_main then switches the default growing method by itself
     elif pre in ('dykstra', 'matrix_rank'):
         prob = gen_problem(rng, 2, 3, kinds)
         n = prob['n']
@@ -1068,6 +1073,8 @@ def unknown_cases(rng, count):
         pairs = []
         if rng.random() < 0.5:
             pairs.append(['tr_radius.eta1', enc(0.2)])
+        if rng.random() < 0.25:
+            val = None               # an unknown name is an error whatever its value
         pairs.append([name, enc(val)])
         out.append(_mk_case(prob, ctx, pairs, int(rng.integers(1 << 30)), 'unknown', 'unknown_name', name, 'unknown_key'))
     return out
